@@ -181,7 +181,7 @@ def main():
     if wpeak > limit:
         ck.violation("write buffer grew to %d > limit %d" % (wpeak, limit), {"side": "out", "peak": wpeak}, tag="wpeak")
     # ---- production limit (no hook cfg): spec-level run of the inbound theorems' conclusions
-    prod_cases, prod_bad = [], 0
+    prod_cases, prod_bad, prod_fill_runs = [], 0, 0
     if not ck.replay:
         root = harness_root()
         rc_, log_ = sh("cargo build --offline --bin biglimit --target-dir %s" % os.path.join(root, "target-nohook"),
@@ -196,13 +196,42 @@ def main():
             for d in (-step - 1, -2, -1, 0, 1, 2, step):
                 prod_cases.append({"id": len(prod_cases), "kind": "frame", "size": L + d, "chunk": ck.rng.choice([65536, 1 << 20, 70001]),
                                    "expect": "ok" if d < 0 else "over"})
-            inp = "\n".join(json.dumps(c) for c in prod_cases) + "\n"
-            rc_, out_ = sh(os.path.join(root, "target-nohook", "debug", "biglimit"), timeout=600, input=inp)
+            # outbound with the production limit, history-dependent: a first send that grows the write
+            # buffer to tens or hundreds of kilobytes (then flushed), then the queue is filled to the limit
+            fills = []
+            firsts = [0, 65601] if ck.tier == "quick" else [0, 65601, 70000, 131400, 3 * 65536 + 77, 1 << 20]
+            for f_ in firsts:
+                fills.append({"id": 1000 + len(fills), "kind": "fill", "limit": L, "first": f_,
+                              "fill": ck.rng.choice([1000, 3000, 5000, 10000]), "small": ck.rng.randrange(0, 60)})
+            exe_ = os.path.join(root, "target-nohook", "debug", "biglimit")
+            from concurrent.futures import ThreadPoolExecutor
+
+            def run1(cs):
+                return sh(exe_, timeout=900, input="\n".join(json.dumps(c) for c in cs) + "\n")[1]
+            groups = [prod_cases] + [[f_] for f_ in fills]
+            with ThreadPoolExecutor(max_workers=4) as ex:
+                outs = list(ex.map(run1, groups))
             res = {}
-            for l in out_.splitlines():
-                if l.startswith("{"):
-                    r = json.loads(l)
-                    res[r["id"]] = r
+            for out_ in outs:
+                for l in out_.splitlines():
+                    if l.startswith("{"):
+                        r = json.loads(l)
+                        res[r["id"]] = r
+            for c in fills:
+                r = res.get(c["id"], {"crash": True})
+                rf = r.get("refusal") or {}
+                okay = (r.get("res") == "ok" and not r.get("refused_early") and r.get("max_queued", L + 1) <= L
+                        and rf.get("err") == "err:overflow" and rf.get("queued", 0) + rf.get("len", 0) > L
+                        and r.get("flushed") == r.get("queued") and r.get("writes") == 1)
+                prod_fill_runs += 1
+                if not okay:
+                    prod_bad += 1
+                    ck.violation("production limit %d, outbound: after a first send of %d payload bytes the queue was filled "
+                                 "with calls of %d and then %d payload bytes: %s (expected: every call accepted while the "
+                                 "queue stays within the limit, BufferOverflow for the first that does not fit, one flush "
+                                 "writing exactly what was accepted)" % (L, c["first"], c["fill"], c["small"],
+                                                                          {k: r.get(k) for k in ("res", "max_queued", "queued", "refusal", "refused_early", "flushed", "writes")}),
+                                 {"side": "out-production", "case": c, "impl": r}, tag="fill%d" % c["id"])
             for c in prod_cases:
                 r = res.get(c["id"], {"crash": True})
                 okay = (c["expect"] == "ok" and str(r.get("res", "")).startswith("ok:")) or \
@@ -222,7 +251,8 @@ def main():
         "traces_validated_against_impl": len(items) + len(witems), "case_classes": hist,
         "inbound_peak_buffer": peak, "outbound_peak_buffer": wpeak, "outbound_overflow_refusals": over,
         "step": step, "limit_under_hook": limit, "production_limit": prod,
-        "production_limit_inbound_runs": len(prod_cases), "production_limit_inbound_failures": prod_bad,
+        "production_limit_inbound_runs": len(prod_cases), "production_limit_failures": prod_bad,
+        "production_limit_outbound_fill_runs": prod_fill_runs,
         "inbound_frame_sizes_tried": len({len(bytes.fromhex(c["frames"][0])) + 1 for c in cin if c["tag"] == "frame_size_sweep"}),
     })
     ck.samples.append({"inbound": "frame of wire size s in %d chunks for s around every multiple of %d up to %d" % (5, step, limit + 2 * step)})
@@ -233,7 +263,8 @@ def main():
         "limit and C17_constants_production re-proves their side conditions for the production constants translated "
         "from connection/mod.rs (%d); with the production limit only the inbound conclusions are exercised (unterminated "
         "streams and frames of wire size limit-257..limit+256 against a build without the cfg), as testing; outbound at the "
-        "production limit is not run (growth re-serialises from scratch every 256 bytes)" % (limit, prod),
+        "production limit: a single message of that size is not run (growth re-serialises from scratch every 256 bytes), "
+        "the queue is filled to the limit with many calls instead, after histories that grew and flushed the buffer" % (limit, prod),
     ]
     ck.finish(rule="a case = one frame size x chunking (inbound) or one send history near the limit (outbound); "
                    "distinct by hash of the script")
